@@ -27,6 +27,39 @@ WHAT = "dispute records deviate from the statement / Gray Paper section 10"
 SIGK = ["ctx", "key", "target", "zero"]
 
 
+class Collect:
+    """ctx view for one validate_trace call: own scratch prefix, violations collected instead of filed."""
+    def __init__(self, ctx, prefix):
+        self._c, self._p = ctx, prefix
+        self.found = []          # (what, lines)
+
+    def sub(self, name):
+        return self._c.sub(self._p + "-" + name)
+
+    def violation(self, what, lines):
+        self.found.append((what, list(lines)))
+        return ""
+
+    def __getattr__(self, k):
+        return getattr(self._c, k)
+
+
+def judge(ctx, tag, module, shards, **kw):
+    """validate_trace + confirmation: a rejected trace prefix is judged a second time on its own before it is
+    filed as a violation; if the second judgement accepts it, the first TLC process died (kill, OOM) -> Infra."""
+    c1 = Collect(ctx, tag)
+    vf.validate_trace(c1, module, shards, **kw)
+    for what, lines in c1.found:
+        c2 = Collect(ctx, tag + "-confirm%d" % (abs(hash(what)) % 100000))
+        kw2 = dict(kw)
+        kw2["par"] = 1
+        vf.validate_trace(c2, module, [lines], **kw2)
+        if not c2.found:
+            raise vf.Infra("trace validation of %s was interrupted (a rejected prefix is accepted when judged again): %s" % (tag, what[:200]))
+        ctx.violation(what, lines)
+    return len(c1.found)
+
+
 def votes(rng, p, total=5):
     idx = sorted(rng_sample(rng, list(range(6)), min(total, 6)))
     pos = set(rng_sample(rng, idx, min(p, len(idx))))
@@ -210,7 +243,7 @@ def run(ctx):
                            "distinct (verdicts, culprits, faults, pending reports) inputs with at least one verdict; cases = TLC-enumerated "
                            "single-block partition (Disputes_Gen) + seeded histories of 2-6 blocks over 8 reports and 10 keys")
         ctx.cov["samples"] = [json.loads(x) for x in lines[:3]]
-        vf.validate_trace(ctx, "Disputes_Trace", shard_lines(lines, 30000 if q else 45000), stateful=True, invariants=INVS,
-                          par=3 if q else 8, heap="3g", timeout=1500, what=WHAT)
+        judge(ctx, "all", "Disputes_Trace", shard_lines(lines, 30000 if q else 45000), stateful=True, invariants=INVS,
+              par=3 if q else 8, heap="3g", timeout=3000, what=WHAT)
         for f in mcf:
             f.result()
